@@ -1,12 +1,12 @@
 SPECIFICATION ISpec
 CONSTANTS
-  P = 2
-  C = 2
-  L = 0
-  MaxProd = 3
-  NB = 0
-  MaxTog = 0
-  MaxFail = 0
+  P = 1
+  C = 1
+  L = 1
+  MaxProd = 2
+  NB = 1
+  MaxTog = 2
+  MaxFail = 1
   Variant = "ok"
   Mode = "free"
   SeqCalls = FALSE
